@@ -97,7 +97,7 @@ CLAIMED = {
          "Decides that no success path of the packet body/header readers bypasses the CRC comparison, the sequence-number test, the length-range and alignment tests or the zero-padding test; that the CRC operands are header[:12] then body on both sides with the same table; that header fields sit at the same offsets in writer and reader; that sequence counters are bumped exactly once per packet; that the trailer padding rule equals the reader's; and that the connection's reader is consumed only via io.ReadFull. A reused buffer is resliced only to the capacity that was tested (`if cap(b) < n {make} else {b = b[:n]}` with one n). 'Any corrupted byte is detected' is decided only as this necessary structure, not for the cipher or CRC mathematics.",
          "clause only; trusts hash/crc32, crypto/cipher, io.ReadFull", "DESIGN.md §3 C35"),
  "C36": ("other", "who-may-write + control-dependence on the memory accounting, thread confinement on the VTA call graph, lockset for writeMu state, monotone-writer rule for ack prefixes",
-         "Does NOT decide exactly-once delivery (a schedule/fault property). Decides necessary structure: incoming-message memory is increased only under acquired+requested <= limit and decreased only after an underflow guard and followed by waking waiters; the accounting and the goRead/goWrite-local state are touched only by functions reachable from their documented owner goroutine and from no other goroutine root or exported API (the code's own 'no synchronization needed' comment, checked on the call graph); state shared between goroutines is accessed only under writeMu (including through c.incoming.transport.… paths and the conditional lock hand-over of goWriteStep, which is verified as a summary); every write to the three acknowledged-prefix fields is ++ or max(self, …).",
+         "Does NOT decide exactly-once delivery (a schedule/fault property). Decides necessary structure: a window slot bound to a partly received message is not overwritten when the window is extended; chunks are acknowledged only when stored; incoming-message memory is increased only under acquired+requested <= limit and decreased only after an underflow guard and followed by waking waiters; the accounting and the goRead/goWrite-local state are touched only by functions reachable from their documented owner goroutine and from no other goroutine root or exported API (the code's own 'no synchronization needed' comment, checked on the call graph); state shared between goroutines is accessed only under writeMu (including through c.incoming.transport.… paths and the conditional lock hand-over of goWriteStep, which is verified as a summary); every write to the three acknowledged-prefix fields is ++ or max(self, …).",
          "clause only; the simulator file fuzz_transport.go is excluded (single-threaded harness)", "DESIGN.md §3 C36"),
  "C37": ("other", "shape rules on the acknowledgement header builders and the range-list linking of AddAckRange",
          "Does NOT decide that the acknowledgement set equals the union of recorded ranges (value-level set arithmetic). Decides the structural clauses: BuildAck writes ackPrefix-1 only when ackPrefix>0, takes from/to from the first node's own bounds and enumerates the ack set from one node's ackFrom to the same node's ackTo (capped), so no number outside a stored range is acknowledged; BuildNegativeAck requests exactly the gaps between the prefix and the ranges; AddAckRange links every new node to its successor and predecessor, merges by min/max of the node's own bounds, carries the lower bound when unlinking an absorbed node and lets the prefix absorb leading ranges.",
